@@ -161,8 +161,41 @@ PROPS["C02"] = {
     "rule": "case = one session history with forged-message steps; distinct_nontrivial counts distinct injection classes (kind, username form, key, transaction kind, source kind, expected effect, agent state at injection)",
     "assumptions": ["liveness refresh by a correctly signed response from a known remote is allowed (the statement restricts pair state only)"],
 }
+def c10_post(outdir, merged, gobin, env):
+    """offline oracle: porcupine over the recorded credential histories"""
+    import glob
+    import json
+    import os
+    import subprocess
+    here = os.path.dirname(os.path.dirname(os.path.abspath(__file__)))
+    linz = os.path.join(here, "bin", "linz")
+    if not os.path.exists(linz):
+        subprocess.run([gobin, "build", "-o", linz, "."], cwd=os.path.join(here, "tools", "linz"), env=env)
+    files = sorted(glob.glob(os.path.join(outdir, "linz-*.json")))
+    res = {"ok": 0, "illegal": 0, "unknown": 0}
+    for i in range(0, len(files), 200):
+        p = subprocess.run([linz] + files[i:i + 200], capture_output=True, text=True)
+        for line in p.stdout.splitlines():
+            try:
+                o = json.loads(line)
+            except ValueError:
+                continue
+            res[o["result"]] = res.get(o["result"], 0) + 1
+            if o["result"] == "illegal":
+                merged["violations"].append({"sig": "credential-history-not-linearizable", "replay": o["file"], "part": "TestVerifC10API",
+                                             "msg": "the recorded call/return history of SetRemoteCredentials/Restart/GetLocal/GetRemoteUserCredentials (%d operations) has no linearization" % o["ops"]})
+    for k, v in res.items():
+        merged["counters"]["porcupine_" + k] = v
+    merged["inconclusive"] += res["unknown"]
+    for f in files:
+        if res["illegal"] == 0:
+            os.remove(f)
+
+
 PROPS["C10"] = {
-    "parts": [part("TestVerifC10Loop", pkg="./internal/taskloop", race=True, q=8, t=16, tq=900)],
+    "post": c10_post,
+    "parts": [part("TestVerifC10Loop", pkg="./internal/taskloop", race=True, q=8, t=16, tq=900),
+              part("TestVerifC10API", race=True, q=8, t=16, tq=600, tt=7200)],
     "level": "exploration",
     "engine": "E2 loopmon + E3 apihammer",
     "technique": "Go race detector over hostile concurrent workloads + history monitor of the task loop (global atomic sequence numbers on task start/end, Run return and Close return; overlap counter) with seeded pauses at hook H2 + porcupine linearizability check of the credential operations",
